@@ -131,11 +131,19 @@ func (k ikey) v() rec.V {
 // ---------------------------------------------------------------------------------------------
 // timeline description (enough to re-run the case)
 
+// a sub-problem: identity, own reads (indices into the key pool), dispatched children (identities)
+type qnode struct {
+	Id   int   `json:"id"`
+	Keys []int `json:"q,omitempty"`
+	Kids []int `json:"c,omitempty"`
+}
+
 type opDesc struct {
-	K    string `json:"k"`           // w r i rd f
-	Slot int    `json:"s"`           // slots (20 ms) to wait before the operation, relative to the previous one
-	Ws   []tup  `json:"w,omitempty"` // w
-	Keys []int  `json:"q,omitempty"` // r: indices into the key pool
+	K    string  `json:"k"`           // w r i rd f
+	Slot int     `json:"s"`           // slots (20 ms) to wait before the operation, relative to the previous one
+	Ws   []tup   `json:"w,omitempty"` // w
+	Keys []int   `json:"q,omitempty"` // r without sub-problems: indices into the key pool
+	T    []qnode `json:"t,omitempty"` // r with sub-problems: the nodes, root first (identities >= 50)
 }
 
 type caseDesc struct {
@@ -252,7 +260,7 @@ type delegate struct {
 	cs    *caseState
 	mu    sync.Mutex
 	calls int
-	side  map[uint64][]readObs
+	side  map[uint64][][][3]int
 	next  uint64
 }
 
@@ -262,11 +270,20 @@ func (d *delegate) ResolveCheck(ctx context.Context, req *graph.ResolveCheckRequ
 	d.next++
 	id := d.next
 	d.mu.Unlock()
-	obj := req.GetTupleKey().GetObject() // "q:<index of the key list>"
-	li, _ := strconv.Atoi(strings.TrimPrefix(obj, "q:"))
-	obs := d.cs.readKeys(d.cs.lists[li])
+	obj := req.GetTupleKey().GetObject() // "q:<identity of the sub-problem>"
+	ni, _ := strconv.Atoi(strings.TrimPrefix(obj, "q:"))
+	node := d.cs.nodes[ni]
+	var contents [][][3]int
+	for _, ob := range d.cs.readKeys(node.Keys) {
+		contents = append(contents, ob.content)
+	}
+	// dispatch the children through the resolver chain (i.e. through the query cache), handing down
+	// the invalidation time like ResolveCheckRequest.clone() does
+	for _, kid := range node.Kids {
+		contents = append(contents, d.cs.resolveNode(ctx, kid, req.GetLastCacheInvalidationTime())...)
+	}
 	d.mu.Lock()
-	d.side[id] = obs
+	d.side[id] = contents
 	d.mu.Unlock()
 	return &graph.ResolveCheckResponse{Allowed: true, ResolutionMetadata: graph.ResolveCheckResponseMetadata{DatastoreItemCount: id}}, nil
 }
@@ -307,6 +324,10 @@ type caseState struct {
 
 	markerIdx map[keys.Key]rec.V
 	lost      bool
+
+	nodes map[int]qnode
+	curQ  []bool // query-cache hit or miss of every sub-problem looked up by the current request, in order
+	curI  []bool // iterator-cache hit or miss of every read performed by the current request, in order
 }
 
 func (cs *caseState) now() int64 { return int64(time.Since(cs.t0)) }
@@ -359,6 +380,54 @@ func (cs *caseState) noteSpawn(before bool) bool {
 	cs.phase = 1
 	cs.spawnAt = cs.now()
 	return true
+}
+
+// resolveNode resolves one sub-problem the way the resolver chain does: through the query cache when
+// it is enabled.  It returns the contents of all reads the answer consists of.
+func (cs *caseState) resolveNode(ctx context.Context, id int, tinv time.Time) [][][3]int {
+	idx := len(cs.curQ)
+	cs.curQ = append(cs.curQ, false)
+	if !cs.d.Qon {
+		node := cs.nodes[id]
+		var contents [][][3]int
+		for _, ob := range cs.readKeys(node.Keys) {
+			contents = append(contents, ob.content)
+		}
+		for _, kid := range node.Kids {
+			contents = append(contents, cs.resolveNode(ctx, kid, tinv)...)
+		}
+		return contents
+	}
+	req, err := graph.NewResolveCheckRequest(graph.ResolveCheckRequestParams{
+		StoreID: cs.store, AuthorizationModelID: cs.model,
+		TupleKey:                  tuple.NewTupleKey("q:"+strconv.Itoa(id), "r", "user:q"),
+		LastCacheInvalidationTime: tinv,
+	})
+	if err != nil {
+		panic(err)
+	}
+	calls := cs.dlg.calls
+	resp, err := cs.resolver.ResolveCheck(ctx, req)
+	if err != nil {
+		panic(err)
+	}
+	cs.curQ[idx] = cs.dlg.calls == calls
+	cs.dlg.mu.Lock()
+	defer cs.dlg.mu.Unlock()
+	return cs.dlg.side[resp.GetResolutionMetadata().DatastoreItemCount]
+}
+
+func (cs *caseState) nodeV(id int) rec.V {
+	n := cs.nodes[id]
+	kvs := make([]rec.V, len(n.Keys))
+	for i, ki := range n.Keys {
+		kvs[i] = keyPool[ki].v()
+	}
+	cvs := make([]rec.V, len(n.Kids))
+	for i, k := range n.Kids {
+		cvs[i] = cs.nodeV(k)
+	}
+	return rec.L(rec.I(id), rec.L(kvs...), rec.L(cvs...))
 }
 
 func (cs *caseState) readKeys(ks []int) []readObs {
@@ -420,6 +489,7 @@ func (cs *caseState) readKeys(ks []int) []readObs {
 			return a[2] < b[2]
 		})
 		out = append(out, readObs{hit: cs.counter.count() == before, content: content})
+		cs.curI = append(cs.curI, cs.counter.count() == before)
 	}
 	return out
 }
@@ -442,6 +512,9 @@ type caseResult struct {
 type opTimes struct{ tb, ta int64 }
 
 func runCase(d caseDesc) (res caseResult) {
+	if strings.HasPrefix(d.Tmpl, "e2e_") {
+		return runE2E(d)
+	}
 	res.desc = d
 	res.stats = map[string]int{}
 	ctx := context.Background()
@@ -460,10 +533,10 @@ func runCase(d caseDesc) (res caseResult) {
 	cs := &caseState{d: d, ctx: ctx, store: ulid.Make().String(), model: ulid.Make().String(), mem: mem, gate: gate, cache: cache, ctrl: ctrl,
 		inflight: (*sync.Map)(unsafe.Pointer(cv.FieldByName("inflightInvalidations").UnsafeAddr())),
 		ctrlWG:   (*sync.WaitGroup)(unsafe.Pointer(cv.FieldByName("wg").UnsafeAddr())),
-		counter:  &countReader{RelationshipTupleReader: mem}, cdsWG: &sync.WaitGroup{}, listIdx: map[string]int{}, present: map[tup]bool{}}
+		counter:  &countReader{RelationshipTupleReader: mem}, cdsWG: &sync.WaitGroup{}, listIdx: map[string]int{}, present: map[tup]bool{}, nodes: map[int]qnode{}}
 	cs.cds = storagewrappers.NewCachedDatastore(ctx, cs.counter, cache, 1000, ms(d.Ittl), &singleflight.Group{}, cs.cdsWG,
 		storagewrappers.WithCachedDatastoreJitterPercentage(uint32(d.Jit)))
-	cs.dlg = &delegate{cs: cs, side: map[uint64][]readObs{}}
+	cs.dlg = &delegate{cs: cs, side: map[uint64][][][3]int{}}
 	cs.resolver, err = graph.NewCachedCheckResolver(graph.WithExistingCache(cache), graph.WithCacheTTL(ms(d.Qttl)), graph.WithJitterPercentage(uint32(d.Jit)))
 	if err != nil {
 		panic(err)
@@ -630,45 +703,36 @@ func runCase(d caseDesc) (res caseResult) {
 			res.stats["op_write"]++
 			res.stats["changes"] += len(vs)
 		case "r":
-			sig := fmt.Sprint(o.Keys)
-			li, ok := cs.listIdx[sig]
-			if !ok {
-				li = len(cs.lists)
-				cs.lists = append(cs.lists, o.Keys)
-				cs.listIdx[sig] = li
+			root := 0
+			if len(o.T) > 0 {
+				for _, nd := range o.T {
+					cs.nodes[nd.Id] = nd
+				}
+				root = o.T[0].Id
+			} else {
+				sig := fmt.Sprint(o.Keys)
+				li, ok := cs.listIdx[sig]
+				if !ok {
+					li = len(cs.lists)
+					cs.lists = append(cs.lists, o.Keys)
+					cs.listIdx[sig] = li
+				}
+				cs.nodes[li] = qnode{Id: li, Keys: o.Keys}
+				root = li
 			}
 			cache.take()
+			cs.curQ, cs.curI = nil, nil
 			tb := cs.now()
 			was := cs.isInflight()
 			tinv := ctrl.DetermineInvalidationTime(ctx, cs.store)
 			spawned := cs.noteSpawn(was)
-			var obs []readObs
-			qhit := false
-			if d.Qon {
-				req, err := graph.NewResolveCheckRequest(graph.ResolveCheckRequestParams{
-					StoreID: cs.store, AuthorizationModelID: cs.model,
-					TupleKey:                  tuple.NewTupleKey("q:"+strconv.Itoa(li), "r", "user:q"),
-					LastCacheInvalidationTime: tinv,
-				})
-				if err != nil {
-					panic(err)
-				}
-				calls := cs.dlg.calls
-				resp, err := cs.resolver.ResolveCheck(ctx, req)
-				if err != nil {
-					panic(err)
-				}
-				qhit = cs.dlg.calls == calls
-				cs.dlg.mu.Lock()
-				obs = cs.dlg.side[resp.GetResolutionMetadata().DatastoreItemCount]
-				cs.dlg.mu.Unlock()
-			} else {
-				obs = cs.readKeys(o.Keys)
-			}
+			contents := cs.resolveNode(ctx, root, tinv)
 			ta := cs.now()
-			// jitter draws, observed through the TTLs of the Set calls
+			// jitter draws, observed through the TTLs of the Set calls (requests with sub-problems are only
+			// generated without jitter)
+			rootKeys := cs.nodes[root].Keys
 			jq := int64(0)
-			ji := make([]int64, len(o.Keys))
+			ji := make([]int64, len(rootKeys))
 			for _, ev := range cache.take() {
 				switch ev.val.(type) {
 				case *graph.CheckResponseCacheEntry:
@@ -676,32 +740,50 @@ func runCase(d caseDesc) (res caseResult) {
 					opTTL[len(times)] = append(opTTL[len(times)], int64(ev.ttl))
 				case *storage.TupleIteratorCacheEntry:
 					opTTL[len(times)] = append(opTTL[len(times)], int64(ev.ttl))
-					for i, ki := range o.Keys {
+					for i, ki := range rootKeys {
 						if ev.key == cs.iterKey(keyPool[ki]) {
 							ji[i] = int64(ev.ttl) - int64(ms(d.Ittl))
 						}
 					}
 				}
 			}
-			kvs := make([]rec.V, len(o.Keys))
-			for i, ki := range o.Keys {
-				kvs[i] = keyPool[ki].v()
+			cvs := make([]rec.V, len(contents))
+			for i, ct := range contents {
+				cvs[i] = contentV(ct)
 			}
-			ovs := make([]rec.V, len(obs))
-			for i, ob := range obs {
-				ovs[i] = rec.L(rec.Bool(ob.hit), rec.I64(ji[i]), contentV(ob.content))
+			bools := func(bs []bool) rec.V {
+				vs := make([]rec.V, len(bs))
+				for i, b := range bs {
+					vs[i] = rec.Bool(b)
+				}
+				return rec.L(vs...)
+			}
+			jvs := make([]rec.V, len(ji))
+			for i, j := range ji {
+				jvs[i] = rec.I64(j)
 			}
 			times = append(times, opTimes{tb, ta})
 			kinds = append(kinds, 'r')
-			ops = append(ops, rec.L(rec.I(2), rec.I64(tb), rec.I64(ta), rec.L(kvs...), rec.Bool(tinv.IsZero()), rec.Bool(spawned), rec.Bool(qhit), rec.L(ovs...), rec.I64(jq)))
+			ops = append(ops, rec.L(rec.I(2), rec.I64(tb), rec.I64(ta), cs.nodeV(root), rec.Bool(tinv.IsZero()), rec.Bool(spawned),
+				bools(cs.curQ), bools(cs.curI), rec.L(cvs...), rec.I64(jq), rec.L(jvs...)))
 			res.stats["op_request"]++
-			if qhit {
-				res.stats["request_query_hit"]++
+			if len(o.T) > 1 {
+				res.stats["op_request_with_subproblems"]++
 			}
-			for _, ob := range obs {
-				if !qhit && ob.hit {
+			for i, h := range cs.curQ {
+				switch {
+				case i == 0 && h:
+					res.stats["request_query_hit"]++
+				case i > 0 && h:
+					res.stats["subproblem_query_hit"]++
+				case i > 0:
+					res.stats["subproblem_query_miss"]++
+				}
+			}
+			for _, h := range cs.curI {
+				if h {
 					res.stats["iterator_hit"]++
-				} else if !qhit {
+				} else {
 					res.stats["datastore_read"]++
 				}
 			}
@@ -842,6 +924,7 @@ type gen struct {
 	ops     []opDesc
 	d       *caseDesc
 	lists   [][]int
+	trees   [][]qnode // requests with sub-problems (only with the query cache and without jitter)
 }
 
 func (g *gen) add(k string, slot int) *opDesc {
@@ -901,7 +984,21 @@ func (g *gen) write(slot, n int, fam int) {
 
 func (g *gen) request(slot int) {
 	o := g.add("r", slot)
+	if len(g.trees) > 0 && g.r.Chance(1, 2) {
+		o.T = rec.Pick(g.r, g.trees)
+		return
+	}
 	o.Keys = rec.Pick(g.r, g.lists)
+}
+
+// reqAll requests every query of the case once
+func (g *gen) reqAll(slot func() int) {
+	for _, l := range g.lists {
+		g.add("r", slot()).Keys = l
+	}
+	for _, t := range g.trees {
+		g.add("r", slot()).T = t
+	}
 }
 
 func (g *gen) gap() int {
@@ -953,6 +1050,20 @@ func generate(seed uint64, idx int) caseDesc {
 		}
 		g.lists = append(g.lists, l)
 	}
+	if d.Qon && d.Jit == 0 && r.Chance(2, 3) {
+		// sub-problem 50 is shared by the parents 51 and 52; 53 dispatches 51 (two levels)
+		sub := qnode{Id: 50, Keys: g.lists[0]}
+		p1 := qnode{Id: 51, Keys: g.lists[len(g.lists)-1][:1], Kids: []int{50}}
+		p2 := qnode{Id: 52, Kids: []int{50}}
+		top := qnode{Id: 53, Kids: []int{51}}
+		g.trees = [][]qnode{{p1, sub}, {p2, sub}}
+		if r.Bool() {
+			g.trees = append(g.trees, []qnode{top, p1, sub})
+		}
+		if r.Bool() {
+			g.trees = append(g.trees, []qnode{sub})
+		}
+	}
 	if r.Chance(1, 8) { // a run over an empty changelog (ReadChanges fails with "not found")
 		g.request(0)
 		g.add("rd", r.Range(0, 1))
@@ -965,18 +1076,20 @@ func generate(seed uint64, idx int) caseDesc {
 	if d.Jit > 0 && !(d.Qon && d.Ion) && r.Chance(2, 3) {
 		t = 100
 	}
+	if d.Ion && d.Jit == 0 && r.Chance(1, 6) {
+		t = 101 + r.Intn(2)
+	}
+	if len(g.trees) > 0 && r.Chance(1, 4) {
+		t = 103 + r.Intn(2)
+	}
 	switch {
 	case t == 100: // an entry whose jittered TTL outlives what the controller assumes
 		d.Tmpl = "jitter_witness"
-		for _, l := range g.lists {
-			g.add("r", 0).Keys = l
-		}
+		g.reqAll(func() int { return 0 })
 		g.add("rd", 0)
 		g.add("f", 0)
 		// the first run invalidated everything: populate again
-		for _, l := range g.lists {
-			g.add("r", 0).Keys = l
-		}
+		g.reqAll(func() int { return 0 })
 		g.write(1, 2, -1)
 		if d.Ion {
 			// the write leaves the iterator TTL window before the run looks at it
@@ -990,9 +1103,54 @@ func generate(seed uint64, idx int) caseDesc {
 			g.add("f", 0)
 			g.add("r", ttlSlots(d.Qttl, r.Range(1, 2))).Keys = g.lists[0]
 		}
-		for _, l := range g.lists {
-			g.add("r", 0).Keys = l
+		g.reqAll(func() int { return 0 })
+	case t == 101 || t == 102:
+		// two invalidation keys with markers of different ages (ReadStartingWithUser with [user, user:*]):
+		// an older, still living marker for one subject, the cached read taken after it, then a change for
+		// the OTHER subject whose marker is the only one that is newer than the cached read
+		d.Tmpl = "two_markers"
+		first, second := 1, 50
+		if t == 102 {
+			d.Tmpl = "two_markers_mirror"
+			first, second = 50, 1
 		}
+		T := d.Ittl / 20
+		g.fresh++
+		g.add("w", T+1).Ws = []tup{{User: first, Oid: 300 + g.fresh, Rel: relEditor}} // the ancient first write left the window
+		g.add("i", 9)
+		g.add("rd", 0)
+		g.add("f", 0) // partial: marker for (first, doc)
+		g.add("r", 0).Keys = []int{4} // [user:u1, user:*] editor: populated after that marker
+		g.fresh++
+		g.add("w", 0).Ws = []tup{{User: second, Oid: 300 + g.fresh, Rel: relEditor}}
+		g.add("i", T+2-9) // by now the first change has left the window, its marker is still alive
+		g.add("rd", 0)
+		g.add("f", 0) // partial: marker for (second, doc) only
+		g.add("r", 1).Keys = []int{4}
+		g.reqAll(func() int { return 0 })
+	case t == 103: // sub-problems, admissible history: the run must invalidate parent and child
+		d.Tmpl = "subproblem_quiet"
+		g.reqAll(func() int { return 0 })
+		g.add("rd", 0)
+		g.add("f", 0)
+		g.reqAll(func() int { return 0 })
+		g.write(1, r.Range(1, 2), -1)
+		g.add("i", r.Range(0, 2))
+		g.add("rd", 0)
+		g.add("f", r.Range(0, 1))
+		g.reqAll(func() int { return 0 })
+	case t == 104: // sub-problems: another parent is computed between the write and the run
+		d.Tmpl = "subproblem_restamp"
+		g.add("r", 0).T = g.trees[0]
+		g.add("rd", 0)
+		g.add("f", 0)
+		g.add("r", 0).T = g.trees[0]
+		g.write(1, 2, -1)
+		g.add("r", r.Range(0, 1)).T = g.trees[1]
+		g.add("i", r.Range(0, 1))
+		g.add("rd", 0)
+		g.add("f", 0)
+		g.reqAll(func() int { return 0 })
 	case t == 0: // the timeline of docs/caching.md
 		d.Tmpl = "docs"
 		g.request(1)
@@ -1026,29 +1184,21 @@ func generate(seed uint64, idx int) caseDesc {
 		g.add("i", r.Range(0, 2))
 		g.add("rd", 0)
 		g.add("f", 0)
-		for _, l := range g.lists {
-			g.add("r", 0).Keys = l
-		}
+		g.reqAll(func() int { return 0 })
 	case t == 9: // exactly one page, one less, one more of recent changes after an old one
 		d.Tmpl = "page_boundary"
-		for _, l := range g.lists {
-			g.add("r", 0).Keys = l
-		}
+		g.reqAll(func() int { return 0 })
 		g.add("rd", 0)
 		g.add("f", 0)
 		g.write(ttlSlots(d.Ittl, r.Range(1, 3)), rec.Pick(r, []int{48, 49, 50, 51, 52}), rec.Pick(r, []int{3, 3, -1}))
 		g.add("i", r.Range(0, 1))
 		g.add("rd", 0)
 		g.add("f", 0)
-		for _, l := range g.lists {
-			g.add("r", 0).Keys = l
-		}
+		g.reqAll(func() int { return 0 })
 	case t == 3 || t == 4: // changes straddling the iterator TTL window
 		d.Tmpl = "window_straddle"
 		g.write(0, 1, rec.Pick(r, []int{0, 1, 2}))
-		for _, l := range g.lists {
-			g.add("r", 0).Keys = l
-		}
+		g.reqAll(func() int { return 0 })
 		g.add("rd", 0)
 		g.add("f", 0)
 		g.write(1, 1, rec.Pick(r, []int{0, 1, 2}))
@@ -1056,9 +1206,7 @@ func generate(seed uint64, idx int) caseDesc {
 		g.add("i", r.Range(0, 2))
 		g.add("rd", 0)
 		g.add("f", 0)
-		for _, l := range g.lists {
-			g.add("r", 0).Keys = l
-		}
+		g.reqAll(func() int { return 0 })
 	case t == 5 || t == 6: // writes and requests between the run's read and its finish
 		d.Tmpl = "during_run"
 		g.request(0)
@@ -1072,20 +1220,14 @@ func generate(seed uint64, idx int) caseDesc {
 		g.request(r.Range(0, 1))
 		g.add("i", 0)
 		g.add("f", r.Range(0, 3))
-		for _, l := range g.lists {
-			g.add("r", 0).Keys = l
-		}
+		g.reqAll(func() int { return 0 })
 		g.add("i", 1)
 		g.add("rd", 0)
 		g.add("f", 0)
-		for _, l := range g.lists {
-			g.add("r", 0).Keys = l
-		}
+		g.reqAll(func() int { return 0 })
 	case t == 7 || t == 8: // entries and changelog entry near their expiry
 		d.Tmpl = "expiry"
-		for _, l := range g.lists {
-			g.add("r", 0).Keys = l
-		}
+		g.reqAll(func() int { return 0 })
 		g.add("rd", 0)
 		g.add("f", 0)
 		g.write(1, 1, -1)
@@ -1094,9 +1236,7 @@ func generate(seed uint64, idx int) caseDesc {
 		g.add("f", 0)
 		ttl := rec.Pick(r, []int{d.Qttl, d.Ittl})
 		g.request(ttlSlots(ttl, rec.Pick(r, []int{-12, -3, -2, 1, 2})))
-		for _, l := range g.lists {
-			g.add("r", rec.Pick(r, []int{0, 0, 3})).Keys = l
-		}
+		g.reqAll(func() int { return rec.Pick(r, []int{0, 0, 3}) })
 	default:
 		d.Tmpl = "random"
 		n := r.Range(6, 16)
@@ -1123,9 +1263,7 @@ func generate(seed uint64, idx int) caseDesc {
 		g.add("i", 0)
 		g.add("rd", 0)
 		g.add("f", 0)
-		for _, l := range g.lists {
-			g.add("r", 0).Keys = l
-		}
+		g.reqAll(func() int { return 0 })
 	}
 	d.Ops = g.ops
 	return d
@@ -1153,6 +1291,11 @@ func emit(w *rec.Writer, res caseResult) {
 		w.Stat("discarded_"+res.discard, 1)
 		return
 	}
+	if strings.HasPrefix(res.desc.Tmpl, "e2e_") {
+		w.Stat("case_"+res.desc.Tmpl, 1)
+		w.Case(res.desc, res.vals...)
+		return
+	}
 	w.Stat("case_"+mode, 1)
 	w.Stat("template_"+res.desc.Tmpl, 1)
 	d := res.desc
@@ -1178,12 +1321,16 @@ func main() {
 		for sc.Scan() {
 			var d caseDesc
 			if json.Unmarshal(sc.Bytes(), &d) == nil && d.Tmpl != "" {
-				if d.Tmpl != "witness" {
+				if d.Tmpl != "witness" && !strings.HasPrefix(d.Tmpl, "e2e_") {
 					d = generate(d.Seed, d.Idx)
 				}
 				// a replayed timeline hits the same time windows: repeat it a few times so that at
 				// least one repetition survives the guard band
-				for i := 0; i < 4; i++ {
+				reps := 4
+				if strings.HasPrefix(d.Tmpl, "e2e_") {
+					reps = 1 // nothing in an end-to-end case depends on timing
+				}
+				for i := 0; i < reps; i++ {
 					descs = append(descs, d)
 				}
 			}
@@ -1191,6 +1338,14 @@ func main() {
 	} else {
 		for i := 0; i < o.N; i++ {
 			descs = append(descs, generate(o.Seed, i))
+		}
+		// end-to-end cases through the real server
+		for i := 0; i < o.N/12; i++ {
+			t := "e2e_quiet"
+			if i%4 == 3 {
+				t = "e2e_restamp"
+			}
+			descs = append(descs, caseDesc{Seed: o.Seed, Idx: 1000000 + i, Tmpl: t, Qon: true, Qttl: 60000, Intv: 0})
 		}
 	}
 	workers := 32
@@ -1220,11 +1375,19 @@ func main() {
 			}
 		}()
 	}
+	var serial []int
 	for i := range descs {
+		if strings.HasPrefix(descs[i].Tmpl, "e2e_") {
+			serial = append(serial, i) // one at a time, after everything else (see e2e.go)
+			continue
+		}
 		next <- i
 	}
 	close(next)
 	wg.Wait()
+	for _, i := range serial {
+		results[i] = runCase(descs[i])
+	}
 	emitted := map[string]bool{}
 	id := func(d caseDesc) string { return fmt.Sprintf("%d/%d/%s", d.Seed, d.Idx, d.Tmpl) }
 	for _, r := range results {
